@@ -22,7 +22,8 @@ RULE = (
     "valid generated histories and their overdraft mutants: a debit inflated by {2e-10,1e-9,1e-6,1e-3,0.5,3}, by dust 5e-11 "
     "(unspecified zone), a debit moved before its funding (transient overdraft later refilled), a debit moved to another "
     "account that does not hold the coins, rows shuffled so that sheet order != time order; x {-n off, -n on} x to-dates "
-    "before / after the overdraft. Oracle per history: must-reject (an account is below -1e-10 once all rows of an instant are "
+    "before / after the overdraft x from-dates and from+to windows (balances cover all history up to the to-date, so a "
+    "from-date never changes the verdict). Oracle per history: must-reject (an account is below -1e-10 once all rows of an instant are "
     "applied) / must-accept (no ordering of same-instant rows can overdraw) / unspecified (never alarms). Non-trivial = "
     "must-reject mutant or must-accept history with a same-instant credit+debit; distinct = hash of (history, -n, to-date)"
 )
@@ -31,8 +32,8 @@ ASSUMPTIONS = [
     "balances in (-1e-10, 0) and same-instant transfer chains are unspecified: either outcome is accepted",
 ]
 SETTINGS: Dict[str, Dict[str, Any]] = {
-    "quick": {"cases": 1600, "cli_cases": 16, "budget_s": 45, "minimums": {"must_reject_runs": 800, "must_accept_runs": 1500, "with_n_negative_reported": 300, "nontrivial": 800, "cli_runs": 8}},
-    "thorough": {"cases": 60000, "cli_cases": 300, "budget_s": 300, "minimums": {"must_reject_runs": 30000, "must_accept_runs": 60000, "with_n_negative_reported": 10000, "nontrivial": 30000, "cli_runs": 150}},
+    "quick": {"cases": 1600, "cli_cases": 48, "budget_s": 45, "minimums": {"must_reject_runs": 800, "must_accept_runs": 1500, "with_n_negative_reported": 300, "nontrivial": 800, "cli_runs": 8, "runs_with_from_date": 1500}},
+    "thorough": {"cases": 60000, "cli_cases": 300, "budget_s": 300, "minimums": {"must_reject_runs": 30000, "must_accept_runs": 60000, "with_n_negative_reported": 10000, "nontrivial": 30000, "cli_runs": 150, "runs_with_from_date": 50000}},
 }
 PROFILES = [
     Profile(n_exchanges=2, n_holders=1, p_intra=0.25, tie_prob=0.3, max_events=16),
@@ -86,18 +87,22 @@ def mutants(hist: Dict[str, Any], rng: Any) -> List[Dict[str, Any]]:
     return result
 
 
-def _observe(ctx: Any, ip: Any, hist: Dict[str, Any], sched: Dict[int, str], allow_negative: bool, to_s: Optional[str], kind: str) -> None:
+def _observe(ctx: Any, ip: Any, hist: Dict[str, Any], sched: Dict[int, str], allow_negative: bool, to_s: Optional[str], kind: str, from_s: Optional[str] = None) -> None:
     from rpv.drive_inproc import balances_of
 
     model = Model(hist)
     to_d = date.fromisoformat(to_s) if to_s else None
+    from_d = date.fromisoformat(from_s) if from_s else None
     if model.overspend_instant() is not None:
         ctx.count("skipped_lot_overspend")
         return
     od = overdraft(model, to_d)
-    res = ip.run(hist, sched, to_date=to_d, allow_negative=allow_negative)
+    # balances cover all history up to the to-date: a from-date never changes the verdict
+    res = ip.run(hist, sched, from_date=from_d, to_date=to_d, allow_negative=allow_negative)
     ctx.count("executions")
-    case = {"hist": hist, "schedule": sched_json(sched), "allow_negative": allow_negative, "to": to_s, "kind": kind}
+    if from_s:
+        ctx.count("runs_with_from_date")
+    case = {"hist": hist, "schedule": sched_json(sched), "allow_negative": allow_negative, "to": to_s, "from": from_s, "kind": kind}
     ctx.tag("tag_kind", f"{kind}:{od.verdict}:{'n' if allow_negative else '-'}")
     nontrivial = False
     if allow_negative:
@@ -159,12 +164,21 @@ def run_shard(ctx: Any) -> None:
         if is_valid(Model(hist)):
             sched = {1970: rng.choice(METHODS)}
             _observe(ctx, ip, hist, sched, False, None, "valid")
+            # the same valid history seen through from / from+to windows (on, next to and between transaction dates)
+            window_days = sorted(candidate_days(rng, hist, 4))
+            if window_days:
+                _observe(ctx, ip, hist, sched, False, None, "valid-from-date", from_s=window_days[len(window_days) // 2].isoformat())
+                clean = [d for d in window_days if clean_cut(hist, d)]
+                if clean:
+                    _observe(ctx, ip, hist, sched, False, clean[-1].isoformat(), "valid-from-to", from_s=window_days[0].isoformat())
             for m in mutants(hist, rng):
                 _observe(ctx, ip, m, sched, False, None, "mutant")
                 _observe(ctx, ip, m, sched, True, None, "mutant")
                 days = [d for d in candidate_days(rng, m, 3) if clean_cut(m, d)]
                 if days:
                     _observe(ctx, ip, m, sched, False, days[0].isoformat(), "mutant-to-date")
+                last = max(parse_ts(r["ts"]).date() for r in m["rows"])
+                _observe(ctx, ip, m, sched, False, None, "mutant-from-date", from_s=rng.choice((last, last + timedelta(days=1), last - timedelta(days=200))).isoformat())
         else:
             ctx.count("generated_invalid")
         index += ctx.nshards
@@ -183,7 +197,7 @@ def replay(ctx: Any, case: Dict[str, Any]) -> None:
 
         cli_slices.c08_replay(ctx, case)
         return
-    _observe(ctx, get_ip(ctx), case["hist"], sched_from_json(case["schedule"]), case["allow_negative"], case["to"], case.get("kind", "replay"))
+    _observe(ctx, get_ip(ctx), case["hist"], sched_from_json(case["schedule"]), case["allow_negative"], case["to"], case.get("kind", "replay"), from_s=case.get("from"))
 
 
 def coverage(merged: Dict[str, Any], tier: str) -> Dict[str, Any]:
@@ -196,6 +210,7 @@ def coverage(merged: Dict[str, Any], tier: str) -> Dict[str, Any]:
             "must_accept_runs": c.get("must_accept_runs", 0),
             "unspecified_runs": c.get("unspecified_runs", 0),
             "runs_with_-n": c.get("with_n_runs", 0),
+            "runs_with_a_from_date": c.get("runs_with_from_date", 0),
             "negative_balances_reported_with_-n": c.get("with_n_negative_reported", 0),
             "rejections_naming_an_overdrawn_account": c.get("rejections_naming_an_overdrawn_account", 0),
             "cli_runs": c.get("cli_runs", 0),
